@@ -14,5 +14,7 @@ SmallRead     == {"ascii", "nonascii"}
 SmallKeys     == {"ascii"}
 SmallLists    == {<<>>, <<"nonascii", "ascii">>}
 SmallControls == {"letter"}
+LogCfgsTwo    == {{"read", "send"}, {"all", "read", "send"}}
+LogCfgsOne    == {{"all", "read", "send"}}
 LogCfgsSmall  == {{}, {"all"}, {"read", "send"}, {"all", "read", "send"}}
 =============================================================================
